@@ -561,7 +561,11 @@ def run(chk):
         for clause, msg in new_bad[:2]:
             found.append((f"C18 violated ({clause}): {msg}",
                           {"stream": "report", "clause": clause, "tjp": c["tjp"], "spec": c["spec"], "titles": c["titles"],
-                           "scenario": c.get("scenario", 0),
+                           "scenario": c.get("scenario", 0), "config": "pure" if i % 7 == 3 else "native",
+                           # the cases that ran before this one in the same implementation process (same configuration): a
+                           # failure may depend on what they left behind
+                           "earlier_cases": [{"tjp": cases[j]["tjp"], "titles": cases[j]["titles"], "scenario": cases[j].get("scenario", 0)}
+                                             for j in range(max(0, i - 60), i) if (j % 7 == 3) == (i % 7 == 3)][-25:],
                            "corpus": c.get("corpus"), "impl_round0": {k: r["rounds"][0][k] for k in ("header", "rows", "body", "jdata", "csv")},
                            "tasks": r["data"]["tasks"], "ledger": r["data"]["ledger"], "resources": r["data"]["resources"]}))
         # coverage accounting
@@ -658,8 +662,17 @@ def replay(chk, rec):
             "scenario": rec.get("scenario", scenario_of(rec["tjp"]))}
     _d, _m, io_ = chk.differential("reptables", ["reptables"], canon=_canon_tables)
     known_attrs = {k for k, _ in json.loads(io_[0])["defs"]}
-    results, models = run_cases(chk, [case], lambda i: "native")
+    cfg = rec.get("config", "native")
+    results, models = run_cases(chk, [case], lambda i: cfg)
     r = results[0]
+    if "_raw" not in r and rec.get("earlier_cases") and not oracle(case, r, known_attrs) and not compare(case, r, json.loads(models[0])):
+        # alone in a fresh process the case passes: run it after the cases that preceded it, in ONE process
+        lines = [jline({"op": "rep_run", "tjp": e["tjp"], "titles": e["titles"], "times": 1, "scenario": e.get("scenario", 0)})
+                 for e in rec["earlier_cases"]]
+        lines.append(jline({"op": "rep_run", "tjp": case["tjp"], "titles": case["titles"], "times": 3, "scenario": case.get("scenario", 0)}))
+        r = junline(chk.impl.run(lines, config=cfg, jobs=1)[-1])
+        if "_raw" not in r:
+            models = {0: core.run_driver([model_line(case, r)])[0]}
     found, dis = [], []
     if "_raw" in r:
         found.append(("implementation crashed on the replayed case", {"impl": r["_raw"][:600], **case}))
